@@ -733,6 +733,27 @@ impl<'a> G<'a> {
             if !self.data_labels.is_empty() && self.r.chance(40) {
                 let (n, _) = self.r.pick(&self.data_labels).clone();
                 self.ins(&format!("mov bp, offset {}", n), "plain");
+            } else if edges && self.r.chance(25) {
+                // string crossing offset FFFFh: the bytes come from ES*16 + BP + i, linearly; what
+                // lies 64 KB lower is made to differ
+                let es = *self.r.pick(&[0u16, 0x1000, 0x0FFF]);
+                let low = self.r.range(0x21, 0x50) as u16;
+                self.set_seg("ds", es);
+                for k in 0..4u16 {
+                    let v = self.num16(low + k);
+                    self.ins(&format!("mov byte [{}], {}", k, v), "plain");
+                }
+                self.set_seg("ds", es.wrapping_add(0x1000));
+                for k in 0..4u16 {
+                    let v = self.num16(low + 0x20 + k);
+                    self.ins(&format!("mov byte [{}], {}", k, v), "plain");
+                }
+                self.set_seg("ds", 0);
+                self.set_seg("es", es);
+                let bp = 0xFFFF - self.r.below(12) as u16;
+                let sb = self.num16(bp);
+                self.ins(&format!("mov bp, {}", sb), "plain");
+                self.tag("int10_13_offset_beyond_64k");
             } else if edges && self.r.chance(50) {
                 // string crossing the end of the address space
                 self.set_seg("es", 0xFFFF);
@@ -798,6 +819,11 @@ impl<'a> G<'a> {
                 let (ds, dx) = if edges && self.r.chance(35) {
                     self.tag("int21_0a_top_of_memory");
                     (0xFFFFu16, self.r.range(0, 15) as u16)
+                } else if edges && self.r.chance(25) {
+                    // the buffer runs past offset FFFFh: the address goes on linearly into the
+                    // next 64 KB (DS*16 + DX + k), it does not wrap inside the segment
+                    self.tag("int21_0a_offset_beyond_64k");
+                    (*self.r.pick(&[0u16, 0x1000, 0x2345, 0xF000]), 0xFFF0 + self.r.below(16) as u16)
                 } else if self.r.chance(30) {
                     (self.r.below(0x1000) as u16, self.r.below(0x400) as u16)
                 } else {
